@@ -92,8 +92,12 @@ def load_check(pid):
 _CHECK = None
 
 
+_CHUNK_SEQ = [0]
+
+
 def _run_chunk(arg):
-    space_name, runner, payloads = arg
+    cid, space_name, runner, payloads = arg
+    _CHUNK_SEQ[0] += 1
     out = []
     for p in payloads:
         bind.reset_globals()
@@ -107,7 +111,9 @@ def _run_chunk(arg):
             r = {"harness_error": f"{type(e).__name__}: {e}\n{traceback.format_exc()}",
                  "payload": _safe_render(space_name, p)}
         out.append((p, r))
-    return space_name, out
+    # which long-lived worker ran this chunk, and as its how-manieth: lets the parent reconstruct the exact sequence
+    # of cases a worker had executed before a violating one (histories of queries in ONE process)
+    return space_name, out, (cid, os.getpid(), _CHUNK_SEQ[0])
 
 
 def _run_one(entry):
@@ -186,15 +192,19 @@ def run_check(pid, tier, seed, only_space=None, collect=False, time_cap=None):
         for i in range(0, len(cases), csize):
             work.append((s.name, s.runner, cases[i:i + csize]))
     rng.shuffle(work)  # the seed permutes the order of work only, never its membership
+    work = [(cid,) + w for cid, w in enumerate(work)]
 
     agg = {
         "n": 0, "cases": 0, "nt": set(), "oc": Counter(), "tags": Counter(), "viol": [],
         "states": set(), "trans": 0, "harness_errors": [], "samples": {}, "extra": {}, "custom": [],
+        "chunks": {}, "work": {w[0]: w for w in work},
     }
     capped = False
 
-    def merge(space_name, results):
-        for p, r in results:
+    def merge(space_name, results, chunk=None):
+        if chunk is not None:
+            agg["chunks"][chunk[0]] = (chunk[1], chunk[2])
+        for ci, (p, r) in enumerate(results):
             agg["cases"] += 1
             if "harness_error" in r:
                 agg["harness_errors"].append(r)
@@ -217,6 +227,8 @@ def run_check(pid, tier, seed, only_space=None, collect=False, time_cap=None):
                 v = dict(v)
                 v["space"] = space_name
                 v["payload"] = p
+                if chunk is not None:
+                    v["_at"] = (chunk[0], ci)
                 agg["viol"].append(v)
             sm = agg["samples"].setdefault(space_name, [])
             if len(sm) < 3 and r.get("sample", True):
@@ -225,16 +237,16 @@ def run_check(pid, tier, seed, only_space=None, collect=False, time_cap=None):
     if NPROC > 1 and len(work) > 1:
         ctx = mp.get_context("fork")
         with ctx.Pool(NPROC) as pool:
-            for space_name, results in pool.imap_unordered(_run_chunk, work):
-                merge(space_name, results)
+            for space_name, results, chunk in pool.imap_unordered(_run_chunk, work):
+                merge(space_name, results, chunk)
                 if time_cap and time.time() - t0 > time_cap:
                     capped = True
                     pool.terminate()
                     break
     else:
         for w in work:
-            space_name, results = _run_chunk(w)
-            merge(space_name, results)
+            space_name, results, chunk = _run_chunk(w)
+            merge(space_name, results, chunk)
             if time_cap and time.time() - t0 > time_cap:
                 capped = True
                 break
@@ -308,6 +320,112 @@ def pairs_worker(pid, tier, inp, outp):
     with open(outp, "wb") as f:
         pickle.dump(out, f)
     return 0
+
+
+def _worker_history(agg, at):
+    "the cases the worker that ran chunk at[0] had executed, in order, up to and including case at[1] of that chunk"
+    cid, ci = at
+    wpid, seq = agg["chunks"][cid]
+    mine = sorted((sq, c) for c, (p, sq) in agg["chunks"].items() if p == wpid and sq <= seq)
+    hist = []
+    for sq, c in mine:
+        _, space, runner, payloads = agg["work"][c]
+        for pl in (payloads if c != cid else payloads[:ci + 1]):
+            hist.append((space, runner, pl))
+    return hist
+
+
+def _run_sequences(pid, key, sequences):
+    "in ONE freshly started interpreter, each sequence in its own forked child: does the last case show violation `key`?"
+    import pickle
+    import tempfile
+
+    with tempfile.TemporaryDirectory(prefix="fadlmc_seq_") as td:
+        inp, outp = os.path.join(td, "in.pkl"), os.path.join(td, "out.pkl")
+        with open(inp, "wb") as f:
+            pickle.dump({"key": key, "sequences": sequences}, f)
+        pr = subprocess.run([sys.executable, "-m", "fadlmc", "seq", pid, inp, outp], cwd=VERIF, capture_output=True, text=True)
+        if pr.returncode != 0 or not os.path.exists(outp):
+            sys.stderr.write(f"sequence worker failed rc={pr.returncode}\n{pr.stderr[-500:]}\n")
+            return [False] * len(sequences)
+        with open(outp, "rb") as f:
+            return pickle.load(f)
+
+
+def seq_worker(pid, inp, outp):
+    import pickle
+
+    global _CHECK
+    check = load_check(pid)
+    _CHECK = check
+    with open(inp, "rb") as f:
+        job = pickle.load(f)
+    out = []
+    for seq in job["sequences"]:
+        r, w = os.pipe()
+        child = os.fork()
+        if child == 0:
+            os.close(r)
+            ok = False
+            try:
+                ok = _run_sequence(check, seq, job["key"])
+            except BaseException:
+                ok = False
+            os.write(w, b"1" if ok else b"0")
+            os._exit(0)
+        os.close(w)
+        data = os.read(r, 1)
+        os.close(r)
+        os.waitpid(child, 0)
+        out.append(data == b"1")
+    with open(outp, "wb") as f:
+        pickle.dump(out, f)
+    return 0
+
+
+def _run_sequence(check, seq, key):
+    res = None
+    for space_name, runner, payload in seq:
+        bind.reset_globals()
+        try:
+            fn = getattr(check, runner) if runner else None
+            res = fn(payload) if fn else check.run(space_name, payload)
+        except BaseException:
+            res = None
+    return bool(res) and any(vkey(check.pid, v["canon"], v["kind"]) == key for v in res.get("viol", ()))
+
+
+def _confirm_history(check, agg, v, key):
+    """Reproduce `v` (found in a worker, not reproducible alone) as the end of the sequence of cases that worker had run,
+    then cut the sequence down: to one earlier case + the violating one if some pair suffices, else to a short suffix."""
+    hist = _worker_history(agg, v["_at"])
+    if len(hist) < 2:
+        return None
+    hist = [(sp, rn, pl) for sp, rn, pl in hist]
+    last = hist[-1]
+    if not _run_sequences(check.pid, key, [hist])[0]:
+        return None
+    earlier = hist[:-1]
+    cand = earlier[::-1][:600]
+    got = _run_sequences(check.pid, key, [[a, last] for a in cand])
+    for a, ok in zip(cand, got):
+        if ok:
+            return [a, last]
+    n = 2
+    while n < len(hist):
+        if _run_sequences(check.pid, key, [hist[-n:]])[0]:
+            return hist[-n:]
+        n *= 2
+    return hist
+
+
+def _history_identity(check, seq, v):
+    if len(seq) == 2:
+        canon = f"after[{_safe_render(seq[0][0], seq[0][2])}]|{v['canon']}"
+    else:
+        canon = f"after[{len(seq) - 1} earlier cases of the same worker]|{v['canon']}"
+    kind = "after-earlier-queries-in-one-process:" + v["kind"]
+    return vkey(check.pid, canon, kind), kind, canon
 
 
 def finish(check, tier, seed, agg, space_info, capped, t0):
@@ -384,23 +502,51 @@ def finish(check, tier, seed, agg, space_info, capped, t0):
                 if pr.returncode == 1:
                     confirmed = True
                 elif tried >= 12:
-                    sys.stderr.write(f"HARNESS ERROR: replays in a fresh process did not reproduce "
-                                     f"(last rc={pr.returncode})\n{pr.stdout}\n{pr.stderr}\n")
-                    write_evidence(check, tier, seed, agg, space_info, capped, t0, len(new), hit,
-                                   note="replay disagreement")
-                    return 2
+                    os.remove(path)
+                    break
                 else:
+                    os.remove(path)
                     continue
             print(f"VIOLATION property={pid} replay={path}")
             print(f"   kind={v['kind']} case={rep['rendered'][:300]!r} :: {str(v.get('msg',''))[:300]}")
             shown += 1
         if not shown:
+            # None of the candidates fails when it is the FIRST thing a process does.  Then the cause may be state
+            # the library carried over from cases the same worker ran earlier: replay that worker's exact sequence
+            # of cases in a fresh process (a history of queries in one process) and cut it down.
+            for k, v in order[:3]:
+                if "_at" not in v:
+                    continue
+                seq = _confirm_history(check, agg, v, k)
+                if seq is None:
+                    continue
+                hk, hkind, hcanon = _history_identity(check, seq, v)
+                if hk in known:
+                    hit[known[hk]["id"]] += 1
+                    print(f"KNOWN-FINDING: property={pid} {known[hk]['id']}: {known[hk]['what']}")
+                    shown = -1
+                    break
+                path = os.path.join(rdir, f"{hk}.json")
+                with open(path, "w") as f:
+                    json.dump({"property": pid, "key": hk, "inner_key": k, "space": "history-in-one-process",
+                               "payload": [list(c) for c in seq], "kind": hkind, "canon": hcanon,
+                               "message": v.get("msg", ""), "rendered": hcanon, "standalone": None}, f, indent=1, default=repr)
+                pr = subprocess.run([sys.executable, "-m", "fadlmc", "replay", path], cwd=VERIF, capture_output=True, text=True)
+                if pr.returncode != 1:
+                    continue
+                print(f"VIOLATION property={pid} replay={path}")
+                print(f"   kind={hkind} history of {len(seq)} cases in one process, last = {_safe_render(v['space'], v['payload'])[:200]!r} :: {str(v.get('msg',''))[:300]}")
+                shown += 1
+                break
+            if shown == -1:
+                shown, new = 0, {}
+        if new and not shown:
             sys.stderr.write("HARNESS ERROR: no violation could be confirmed in a fresh process\n")
             write_evidence(check, tier, seed, agg, space_info, capped, t0, len(new), hit, note="replay disagreement")
             return 2
         if len(new) > shown:
             print(f"   ... and {len(new) - shown} further distinct violating inputs (replays not written)")
-        rc = 1
+        rc = 1 if new else 0
 
     complaints = check.selftest(agg)
     if len(agg["oc"]) < check.min_outcomes:
@@ -470,6 +616,10 @@ def replay(path):
     if isinstance(payload, list):
         payload = _tuplify(payload)
     bind.reset_globals()
+    if rep["space"] == "history-in-one-process":
+        ok = _run_sequence(check, [tuple(c) for c in payload], rep["inner_key"])
+        print(("REPRODUCED" if ok else "NOT REPRODUCED") + f" property={check.pid} history of {len(payload)} cases in one process")
+        return 1 if ok else 0
     if rep["space"] == "histories-of-2":
         check._menu = check.pair_menu("thorough")
         r = _run_pair(payload)
